@@ -174,3 +174,37 @@ def param_space(ctx, rng, n: int) -> Iterator[Tuple[str, Callable]]:
             params = {f"p{i}": rng.choice([c13.rand_int(rng), 1.5, "txt", h.Literal("w/2"), c13.rand_prefixed(rng), c13.rand_decimal(rng), None])
                       for i in range(3)}
             yield one(em(params), f"ExternalModule[{st.name}]({params})")
+
+
+def collision_designs(ctx, rng, n: int) -> Iterator[Tuple[str, Callable]]:
+    """Adversarially named designs (the C05 variants): names the elaborator invents given to designer objects."""
+    import hdl21 as h
+    from .checks import c05
+
+    bases = [(l, d) for l, d in spec.structural_designs()]
+    rng.shuffle(bases)
+    count = 0
+    for label, base in bases:
+        cands = []
+        for m in base["modules"]:
+            for N, why in c05.invented_names(base, m).items():
+                for us in ("", "_"):
+                    for kind in ("sig", "inst", "nc", "bun"):
+                        cands.append((m["name"], N + us, kind))
+        rng.shuffle(cands)
+        # prefer clashes with flattened bundle-PORT members of sub-modules: the parent must follow the fresh port name
+        pref = []
+        for m in base["modules"][:-1]:
+            for bp in m.get("bports", []):
+                for N, why in c05.invented_names(base, m).items():
+                    if N.startswith(bp[0] + "_"):
+                        pref.append((m["name"], N, rng.choice(["sig", "inst", "port", "port"])))
+        pref = [(a, b, k) for (a, b, _) in pref[:2] for k in ("port", "sig")]
+        for (mname, N, kind) in pref + cands[:2]:
+            v = c05.make_variant(base, mname, N, kind, rng.random() < 0.5, rng)
+            if v is None:
+                continue
+            yield f"collision {label} / {mname}: {kind} named {N}", (lambda v=v: h.to_proto(build.build(v).top))
+            count += 1
+            if count >= n:
+                return
